@@ -44,6 +44,7 @@ def run(idx: Index, rep: Report, tier: str):
     check_fragment_build(idx, rep)
     check_link_placement(idx, rep)
     check_dmet_rebuild(idx, rep)
+    check_dmet_electron_split(idx, rep)
 
 
 # ---------------------------------------------------------------------------------------------------
@@ -335,3 +336,44 @@ def check_dmet_rebuild(idx: Index, rep: Report):
     rep.decide(ok, rule, init, geo[0], text="fragments [[3, 1], [0], [4, 2]] -> atoms in the order 3, 1, 0, 4, 2 and sizes [2, 1, 2]",
                what="the atoms are permuted so that each fragment is contiguous, in the order given, and the fragment sizes are the lengths of the lists",
                reason=f"geometry {fo.env.get('new_geometry')}, sizes {fo.env.get('new_fragment_atoms')}")
+
+
+DMETORB = "tangelo/problem_decomposition/dmet/_helpers/dmet_orbitals.py"
+
+
+def check_dmet_electron_split(idx: Index, rep: Report):
+    """the unrestricted DMET set-up splits the electrons of the whole molecule into alpha and beta counts; they fix the low-level density, the bath and
+    the spin of every fragment.  The statements of _unrestricted_init that compute the two counts are folded for every electron number up to 10 and every
+    admissible spin: n_alpha = (n + s) / 2, n_beta = (n - s) / 2."""
+    from ..consteval import Folder
+    rule = "K9.alpha-beta"
+    f = idx.function(f"{DMETORB}::dmet_orbitals._unrestricted_init")
+    body = f.node.body
+    tgt = {"self.number_active_electrons_alpha": None, "self.number_active_electrons_beta": None}
+    for i, st in enumerate(body):
+        if isinstance(st, ast.Assign) and len(st.targets) == 1 and norm(st.targets[0]) in tgt:
+            tgt[norm(st.targets[0])] = i
+    if None in tgt.values():
+        raise AnalysisError("dmet_orbitals._unrestricted_init: assignments of the alpha / beta electron counts not found")
+    last = max(tgt.values())
+    n_asg = [i for i, st in enumerate(body) if isinstance(st, ast.Assign) and norm(st.targets[0]) == "self.number_active_electrons"]
+    if not n_asg or n_asg[0] > min(tgt.values()):
+        raise AnalysisError("dmet_orbitals._unrestricted_init: the total electron number is not set before the split")
+    bad = []
+    n = 0
+    for ne in range(1, 11):
+        for s in range(ne % 2, ne + 1, 2):
+            me = Rec("dmet_orbitals", {"number_active_electrons": ne, "mol_full": Rec("Mole", {"spin": s, "nelectron": ne}), "mf_full": Rec("SCF", {"mol": Rec("Mole", {"spin": s, "nelectron": ne})})})
+            fo = Folder(env={"self": me})
+            try:
+                for st in body[n_asg[0] + 1:last + 1]:
+                    fo.stmt(st)
+            except (Undecidable, Raised) as e:
+                raise AnalysisError(f"dmet_orbitals._unrestricted_init: electron split not foldable: {e}")
+            got = (me.fields.get("number_active_electrons_alpha"), me.fields.get("number_active_electrons_beta"))
+            n += 1
+            if got != ((ne + s) // 2, (ne - s) // 2):
+                bad.append(f"{ne} electrons, spin {s}: ({got[0]}, {got[1]}) instead of ({(ne + s) // 2}, {(ne - s) // 2})")
+    rep.decide(not bad, rule, f, body[min(tgt.values())], text=f"unrestricted DMET: (n_alpha, n_beta) for {n} (electrons, spin) pairs",
+               what="the alpha and beta electron numbers of the embedded molecule are (n + s)/2 and (n - s)/2 for its electron number n and spin s",
+               reason="; ".join(bad[:3]))
